@@ -460,23 +460,51 @@ def rules(rep, m):
               strip(kids(y)[0], casts=True).get("kind") == "DeclRefExpr" and strip(kids(y)[1], casts=True).get("kind") == "DeclRefExpr" and
               strip(kids(y)[0], casts=True)["ref"]["id"] == strip(kids(y)[1], casts=True)["ref"]["id"]]
         if sq:
-            tails.append((lp, strip(kids(sq[0])[0], casts=True)["ref"]))
-    for lp, vref in tails:
-        par = [a_ for a_ in inv.enclosing_chain(nh, lp) if a_["kind"] == "CompoundStmt"][-1]
-        after = kids(par)[kids(par).index(lp) + 1:]
-        rets = [y for s_ in after for y in walk(s_) if y["kind"] == "ReturnStmt" and kids(y)]
+            tails.append((lp, strip(kids(sq[0])[0], casts=True)["ref"], None))
+            continue
+        # the test may be an `if` inside an endless loop whose accepting branch returns
+        for st_ in walk(lp):
+            if st_["kind"] == "IfStmt" and not any(z is not lp and z["kind"] in ("DoStmt", "WhileStmt", "ForStmt") and any(w is st_ for w in walk(z))
+                                                   for z in walk(lp)):
+                sq = [y for y in walk(kids(st_)[0]) if y.get("kind") == "BinaryOperator" and y.get("opcode") == "*" and
+                      strip(kids(y)[0], casts=True).get("kind") == "DeclRefExpr" and strip(kids(y)[1], casts=True).get("kind") == "DeclRefExpr" and
+                      strip(kids(y)[0], casts=True)["ref"]["id"] == strip(kids(y)[1], casts=True)["ref"]["id"]]
+                if sq and any(y["kind"] == "ReturnStmt" for y in walk(st_)):
+                    tails.append((lp, strip(kids(sq[0])[0], casts=True)["ref"], st_))
+    for lp, vref, test_if in tails:
+        if test_if is not None:
+            rets = [y for y in walk(test_if) if y["kind"] == "ReturnStmt" and kids(y)]
+        else:
+            par = [a_ for a_ in inv.enclosing_chain(nh, lp) if a_["kind"] == "CompoundStmt"][-1]
+            after = kids(par)[kids(par).index(lp) + 1:]
+            rets = [y for s_ in after for y in walk(s_) if y["kind"] == "ReturnStmt" and kids(y)]
         r8.instance("%s: candidate '%s' tested in the loop at line %s, returned as %s" % (nh.name, vref["name"], lp.get("line"),
                                                                                        [render(kids(y)[0])[:60] for y in rets]))
         if not rets:
             raise AnalysisBroken("%s: no return after the tail's rejection loop" % nh.name)
         bad = None
         for rt in rets:
-            uses = [y for y in walk(kids(rt)[0]) if y["kind"] == "DeclRefExpr" and y["ref"]["id"] == vref["id"]]
+            # occurrences of the candidate in the value returned, also through single-definition locals: (use node, top node)
+            uses = []
+
+            def occurrences(expr, top, depth=0):
+                for y in walk(expr):
+                    if y["kind"] == "DeclRefExpr" and y["ref"]["id"] == vref["id"]:
+                        uses.append((y, top))
+                    elif y["kind"] == "DeclRefExpr" and y["ref"].get("kind") == "VarDecl" and depth < 4:
+                        d_ = nx.single_def(y["ref"]["id"])
+                        if d_ is not None:
+                            before = len(uses)
+                            holder_ = [v for v in walk(nh.body) if v["kind"] == "VarDecl" and v.get("id") == y["ref"]["id"]]
+                            occurrences(d_, holder_[0] if holder_ else d_, depth + 1)
+                            if len(uses) > before:
+                                uses.append((y, top))      # the local that carries the candidate is itself a use here
+            occurrences(kids(rt)[0], rt)
             if not uses:
                 bad = "the value returned does not contain the accepted candidate '%s'" % vref["name"]
-            for u in uses:
+            for u, top_ in uses:
                 chain = inv.enclosing_chain(nh, u)
-                for anc in chain[chain.index(rt):] if rt in chain else chain:
+                for anc in chain[chain.index(top_):] if top_ in chain else chain:
                     if anc["kind"] == "BinaryOperator" and anc.get("opcode") in ("*", "/"):
                         other = [z for z in kids(anc) if not any(y is u for y in walk(z))]
                         for o_ in other:
